@@ -113,6 +113,21 @@ def check_header(case):
     from ..core import pack_fresh
 
     pack_fresh(devs, "enc.bytes_repeat", h.pack, raw)
+    # the documented plain-integer forms of the enumerated fields ("0 for Telemetry, 1 for Telecommands", flags 0..3)
+    hi = sp.SpacePacketHeader(packet_type=f["ptype"], apid=f["apid"], seq_count=f["count"], data_len=f["dlen"], sec_header_flag=bool(f["shf"]), seq_flags=f["flags"], ccsds_version=f["ver"])
+    eq(devs, "enc.int_enums.bytes", bytes(hi.pack()), raw)
+    eq(devs, "enc.int_enums.roundtrip", obs_header(sp.SpacePacketHeader.unpack(bytes(hi.pack()))), f)
+    eq(devs, "pid.int_ptype.raw", sp.PacketId(f["ptype"], bool(f["shf"]), f["apid"]).raw(), p["packet_id"])
+    eq(devs, "psc.int_flags.raw", sp.PacketSeqCtrl(f["flags"], f["count"]).raw(), p["psc"])
+    eq(devs, "pid.helper_raw.int_ptype", sp.get_sp_packet_id_raw(f["ptype"], bool(f["shf"]), f["apid"]), p["packet_id"])
+    eq(devs, "psc.helper_raw.int_flags", sp.get_sp_psc_raw(f["flags"], f["count"]), p["psc"])
+    b1, b2 = sp.get_space_packet_id_bytes(f["ptype"], bool(f["shf"]), f["apid"], f["ver"])
+    eq(devs, "id_bytes.int_ptype", bytes([b1, b2]), raw[0:2])
+    hs = sp.SpacePacketHeader.unpack(raw)
+    hs.packet_type = 1 - f["ptype"]
+    hs.packet_type = f["ptype"]
+    hs.seq_flags = f["flags"]
+    eq(devs, "setter.int_enums.bytes", bytes(hs.pack()), raw)
     b1, b2 = sp.get_space_packet_id_bytes(sp.PacketType(f["ptype"]), bool(f["shf"]), f["apid"], f["ver"])
     eq(devs, "id_bytes", bytes([b1, b2]), raw[0:2])
     eq(devs, "apid_from_raw", sp.get_apid_from_raw_space_packet(raw + tail), f["apid"])
